@@ -11,7 +11,7 @@
 //!  B  all well-nested strings of <= 7 symbols over {host rule, ordinary rule, combination, open at-rule, close}
 //!     with nesting depth <= 3 (this contains every interleaving of rules with at-rule boundaries, empty at-rules,
 //!     sibling at-rules with the same prelude); the concrete spelling of each symbol rotates through the pools below;
-//!  C  all sequences of <= 2 pieces from the 10 pieces of A plus 12 probes (`.a :host`, `.a, :host`, `:HOST`,
+//!  C  all sequences of <= 2 pieces from the 10 pieces of A plus 15 probes (`:h\6f st`, `:\68ost`, `:/**/host`, `.a :host`, `.a, :host`, `:HOST`,
 //!     `:host-context()`, `@font-face{}`, `@layer y;`, `:host/*c*/{`, `:host{}`, `:host>.a`, `#x:hover`, ...), at
 //!     depth 0, inside `@media`, inside `@MEDIA` and inside `@supports selector(.c){@layer x{`.
 //!
@@ -44,7 +44,7 @@
 //! `HOSTPART_ALL=1 vxreplay HOSTPART search` lists every failing input on stderr.
 //!
 //! NOT covered: malformed sheets (unclosed blocks, `:host` without a block, stray `}`), `:host` nested in `:not()` /
-//! `:is()`, `::host`, escapes (`:h\6fst`), class_prefix_sign, import_sign, rpx ratios other than 750, prefixes or
+//! `:is()`, `::host`, class_prefix_sign, import_sign, rpx ratios other than 750, prefixes or
 //! host names that need escaping, source maps, CSS nesting (rules inside declaration blocks), @import.
 use crate::Outcome;
 use cssparser::{ParseError, Parser, ParserInput, ToCss, Token};
@@ -364,6 +364,8 @@ const PROBES: &[&str] = &[
     ".a :host{color:red;order:{N}}", ".a, :host{color:red;order:{N}}", ":HOST{color:red;order:{N}}", ORDS[5], ORDS[4],
     "@font-face{font-family:f;width:5rpx;order:{N}}", "@layer y{N};", ":host/*c*/{bottom:6rpx;order:{N}}", ":host{}", COMBOS[4], HOSTS[2],
     "@keyframes k{N}{from{top:1rpx}to{top:2rpx}}",
+    // the same `:host` token pair in other source spellings: escapes in the identifier, a comment behind the colon
+    ":h\\6f st{color:red;order:{N}}", ":\\68ost{top:1rpx;order:{N}}", ":/**/host{color:red;order:{N}}",
 ];
 const CHAINS_A: &[&[&str]] = &[&[WRAPS[0]], &[WRAPS[1], WRAPS[2]], &[WRAPS[5], WRAPS[3], WRAPS[4]]];
 const CHAINS_C: &[&[&str]] = &[&[], &[WRAPS[0]], &["@MEDIA (min-width:1px)"], &[WRAPS[4], WRAPS[2]]];
